@@ -241,6 +241,7 @@ func init() {
 			{Engine: "A", Scenario: "leader-after-install", Params: "seg=1024", Quick: 6, Thorough: 60},
 			{Engine: "A", Scenario: "promoted-unaware", Quick: 4, Thorough: 40},
 			{Engine: "A", Scenario: "self-demotion-uncommitted", Params: "ext=2", Quick: 2, Thorough: 12},
+			{Engine: "A", Scenario: "idle-nonvoter-restarted", Quick: 2, Thorough: 12},
 		},
 		Rule:       "restated as bounded progress: seeded fault histories (partitions, crashes, restarts, membership churn, removed nodes that keep campaigning) followed by heal; within 400 ticks (tick = heartbeat timeout / 4) one leader that every live member follows, a fresh update committed, every live member's state machine caught up, membership stable; a miss is extended 4x: still stuck = violation, late = inconclusive; plus leader stickiness on every vote request handled while a leader is known; directed: a follower whose storage was wiped comes back under the same leader (known finding, see known_findings.json); non-trivial if the run had at least one fault and reached the convergence phase; distinct = distinct abstract trace",
 		Nontrivial: all(ge("faults", 1)),
